@@ -97,7 +97,10 @@ impl HtxFile {
                 )?
             }
             FileBufSizeParam::PerMille(val) => {
-                VarFile::with_per_mille(piece_mgr, "htx", std_file, CHUNK_SIZE, val)?
+                // below 1000 per mille the buffer can be as small as 32 KiB.
+                // it needs chunks small enough to hold more than the pinned first one.
+                let chunk_size = if val < 1000 { CHUNK_SIZE / 8 } else { CHUNK_SIZE };
+                VarFile::with_per_mille(piece_mgr, "htx", std_file, chunk_size, val)?
             }
             FileBufSizeParam::Auto => VarFile::new(piece_mgr, "htx", std_file)?,
         };
